@@ -307,3 +307,18 @@ Proof.
   rewrite Hnb. change (N.eqb 34 34) with true. cbn iota.
   rewrite spec_lex_quoted; [reflexivity|]. rewrite app_length. cbn [length]. lia.
 Qed.
+
+(** non-vacuity through the whole parser with its default fuel: a value with a quote, a backslash, a line
+    feed, a tab, a non-BMP character *)
+Definition ex_val : str := [104; 34; 92; 10; 9; 233; 128512].
+Definition ex_text : str := s "{ a(s: " ++ quote ex_val ++ s ") }".
+Example string_lex_whole_parser :
+  exists d, parse_operation_document 0 ex_text = POk d /\ ck_opdoc ex_text 0 d = true /\
+  match od_defs d with
+  | [DOp o] => match selset_sels (op_sel o) with
+               | [SField _ _ (Some args) _ _] => match args_list args with [(_, VString _ v)] => v = ex_val | _ => False end
+               | _ => False
+               end
+  | _ => False
+  end.
+Proof. eexists. split; [vm_compute; reflexivity|]. split; [vm_compute; reflexivity|]. vm_compute. reflexivity. Qed.
